@@ -164,6 +164,8 @@ fn observer(s: u32, a: usize, _b: usize) {
 struct Cfg {
     seed: u64,
     owner_mode: bool,
+    /// several mutators per signal, everything logged, partial-order checker (no unregister_signal, no Signals)
+    shared_log: bool,
     phase: String,
     rounds: u64,
     round_ms: u64,
@@ -234,7 +236,7 @@ fn mutator(
     } else {
         cfg.sigs.clone()
     };
-    let is_clearer = !cfg.owner_mode && m == 0;
+    let is_clearer = !cfg.owner_mode && !cfg.shared_log && m == 0;
     let max_live = if cfg.owner_mode { 4 } else { 3 };
     let mut ops = 0u64;
 
@@ -396,7 +398,7 @@ fn mutator(
                 check_removed(l.idx, Some(my_tid));
             }
             st.clears += 1;
-        } else if !cfg.owner_mode && m == 1 && choice >= 90 {
+        } else if !cfg.owner_mode && !cfg.shared_log && m == 1 && choice >= 90 {
             // ---- own a Signals instance for a while, then drop it (removal by owner drop)
             let s = cfg.sigs[0].sig;
             IT_GONE[s as usize].store(0, Ordering::SeqCst);
@@ -596,9 +598,136 @@ fn check_owner_log(evs: &[evlog::Ev], init_state: &HashMap<u64, Vec<u64>>, st: &
     }
 }
 
+/// Several mutators per signal: the state sequence is not known, but every action has one owner thread that
+/// registers and unregisters it, so per bracket: nothing twice, nothing of another signal, an action whose
+/// registration had returned before the bracket began and whose removal had not been called before it ended must
+/// run, one whose removal had returned before it began or whose registration was called after it ended must not,
+/// and two actions whose registrations are ordered in real time run in that order.
+fn check_shared_log(evs: &[evlog::Ev], st: &mut C02Stats) {
+    #[derive(Clone, Copy)]
+    struct Life {
+        sig: u64,
+        reg_call: usize,
+        reg_ret: usize,
+        unreg_call: usize,
+        unreg_ret: usize,
+    }
+    let mut life: HashMap<u64, Life> = HashMap::new();
+    let mut open: HashMap<u32, (usize, u64, u64, u64)> = HashMap::new(); // tid -> (call stamp, op, sig, tag)
+    for (stamp, e) in evs.iter().enumerate() {
+        if e.kind == kind::CALL {
+            open.insert(e.tid, (stamp, e.a & 0xff, e.a >> 8, e.b));
+        } else if e.kind == kind::RET {
+            if let Some((cs, op, sig, tag)) = open.remove(&e.tid) {
+                if op == 1 && e.b == 1 {
+                    life.insert(tag, Life { sig, reg_call: cs, reg_ret: stamp, unreg_call: usize::MAX, unreg_ret: usize::MAX });
+                } else if op == 2 {
+                    if let Some(l) = life.get_mut(&tag) {
+                        l.unreg_call = cs;
+                        l.unreg_ret = stamp;
+                    }
+                }
+            }
+        }
+    }
+    // operations still open at the end of the log: their call stamp counts, their return is unknown
+    for (_tid, (cs, op, sig, tag)) in open.iter() {
+        if *op == 1 {
+            life.entry(*tag).or_insert(Life { sig: *sig, reg_call: *cs, reg_ret: usize::MAX, unreg_call: usize::MAX, unreg_ret: usize::MAX });
+        } else if *op == 2 {
+            if let Some(l) = life.get_mut(tag) {
+                l.unreg_call = *cs;
+            }
+        }
+    }
+    let mut by_sig: HashMap<u64, Vec<u64>> = HashMap::new();
+    for (t, l) in life.iter() {
+        by_sig.entry(l.sig).or_default().push(*t);
+    }
+    let mut stacks: HashMap<u32, Vec<(u64, usize, Vec<u64>)>> = HashMap::new();
+    for (stamp, e) in evs.iter().enumerate() {
+        if e.kind == site::DISPATCH_ENTER {
+            stacks.entry(e.tid).or_default().push((e.a, stamp, vec![]));
+        } else if e.kind == kind::ACT_BEGIN {
+            if let Some(b) = stacks.entry(e.tid).or_default().last_mut() {
+                b.2.push(e.a);
+            }
+        } else if e.kind == site::DISPATCH_EXIT {
+            let (sig, enter, run) = match stacks.entry(e.tid).or_default().pop() {
+                Some(b) => b,
+                None => continue,
+            };
+            let exit = stamp;
+            st.brackets += 1;
+            st.max_run = st.max_run.max(run.len());
+            let mut seen = HashSet::new();
+            for t in run.iter() {
+                if !seen.insert(*t) {
+                    st.violations.push(format!("sig {} bracket [{}..{}] ran action {:x} twice: {:x?}", sig, enter, exit, t, run));
+                }
+                match life.get(t) {
+                    Some(l) => {
+                        if l.sig != sig {
+                            st.violations.push(format!("sig {} bracket [{}..{}] ran action {:x} that was registered for signal {}", sig, enter, exit, t, l.sig));
+                        }
+                        if l.unreg_ret < enter {
+                            st.violations.push(format!("sig {} bracket [{}..{}] ran action {:x} whose removal had returned at stamp {}", sig, enter, exit, t, l.unreg_ret));
+                        }
+                        if l.reg_call > exit {
+                            st.violations.push(format!("sig {} bracket [{}..{}] ran action {:x} whose registration was only called at stamp {}", sig, enter, exit, t, l.reg_call));
+                        }
+                    }
+                    None => {} // registered in an earlier round and already removed: covered by the canaries
+                }
+            }
+            let mut overlapping = 0;
+            if let Some(tags) = by_sig.get(&sig) {
+                for t in tags.iter() {
+                    let l = life[t];
+                    if l.reg_ret < enter && l.unreg_call > exit && !seen.contains(t) {
+                        st.violations.push(format!(
+                            "sig {} bracket [{}..{}] did not run action {:x} although its registration had returned (stamp {}) and its removal had not been called (stamp {:?}); ran {:x?}",
+                            sig, enter, exit, t, l.reg_ret, if l.unreg_call == usize::MAX { None } else { Some(l.unreg_call) }, run
+                        ));
+                    }
+                    if (l.reg_call < exit && l.reg_ret > enter) || (l.unreg_call < exit && l.unreg_ret > enter) {
+                        overlapping += 1;
+                    }
+                }
+            }
+            for w in run.windows(2) {
+                if let (Some(x), Some(y)) = (life.get(&w[0]), life.get(&w[1])) {
+                    if y.reg_ret < x.reg_call {
+                        st.violations.push(format!(
+                            "sig {} bracket [{}..{}]: action {:x} ran before {:x} although {:x}'s registration had returned (stamp {}) before {:x}'s was called (stamp {})",
+                            sig, enter, exit, w[0], w[1], w[1], y.reg_ret, w[0], x.reg_call
+                        ));
+                    }
+                }
+            }
+            if overlapping > 0 {
+                st.nontrivial += 1;
+                let owners: HashSet<u64> = run.iter().map(|t| t >> 40).collect();
+                let key = (sig << 48) ^ ((overlapping.min(7) as u64) << 40) ^ ((run.len() as u64) << 32) ^ ((owners.len() as u64) << 28);
+                if st.distinct.insert(key) && st.samples.len() < 6 {
+                    st.samples.push(
+                        J::obj()
+                            .set("sig", J::u(sig))
+                            .set("bracket", J::arr([J::u(enter as u64), J::u(exit as u64)]))
+                            .set("ran", J::arr(run.iter().map(|t| J::s(&format!("{:x}", t)))))
+                            .set("mutators_owning_the_actions_run", J::u(owners.len() as u64))
+                            .set("operations_overlapping_the_bracket", J::u(overlapping as u64)),
+                    );
+                }
+            }
+        }
+    }
+}
+
 pub fn main(args: &[String]) -> i32 {
     let seed = arg_u64(args, "--seed", 1);
     let owner_mode = arg_str(args, "--mode", "stress") == "owner";
+    let shared_log = arg_str(args, "--mode", "stress") == "sharedlog";
     let phase = arg_str(args, "--phase", "none").to_string();
     let rtmin = crate::sig::rtmin();
     let all_sigs = vec![
@@ -611,6 +740,7 @@ pub fn main(args: &[String]) -> i32 {
     let cfg = Cfg {
         seed,
         owner_mode,
+        shared_log,
         phase: phase.clone(),
         rounds: arg_u64(args, "--rounds", 20),
         round_ms: arg_u64(args, "--round-ms", 100),
@@ -618,17 +748,17 @@ pub fn main(args: &[String]) -> i32 {
         victims: arg_u64(args, "--victims", 5) as usize,
         killers: arg_u64(args, "--killers", 2) as usize,
         sigs: all_sigs[..nsigs].to_vec(),
-        ops_per_round: arg_u64(args, "--ops", if owner_mode { 60 } else { 0 }),
+        ops_per_round: arg_u64(args, "--ops", if owner_mode || shared_log { 60 } else { 0 }),
     };
     crate::set_thread(1, class::MAIN);
     director::seed_thread(seed);
-    evlog::init(if owner_mode { 4 << 20 } else { 1 << 16 });
+    evlog::init(if owner_mode || shared_log { 4 << 20 } else { 1 << 16 });
     director::install();
     director::set_observer(Some(observer));
     director::COVER.store(true, Ordering::SeqCst);
     crate::ALLOC_WATCH.store(true, Ordering::SeqCst);
-    LOG_ACTIONS.store(owner_mode, Ordering::SeqCst);
-    director::LOG_HOOKS.store(if owner_mode { 1 } else { 0 }, Ordering::SeqCst);
+    LOG_ACTIONS.store(owner_mode || shared_log, Ordering::SeqCst);
+    director::LOG_HOOKS.store(if owner_mode || shared_log { 1 } else { 0 }, Ordering::SeqCst);
 
     // Director phase
     let reader_sites = [site::HL_R_GEN, site::HL_R_INC, site::HL_R_PTR, site::D_BEFORE_ACTION, site::D_AFTER_DATA_READ, site::HL_R_CLOSE];
@@ -685,7 +815,7 @@ pub fn main(args: &[String]) -> i32 {
 
     for round in 0..cfg.rounds {
         evlog::reset();
-        evlog::enable(owner_mode);
+        evlog::enable(owner_mode || shared_log);
         let stop_m = Arc::new(AtomicBool::new(false));
         let stop_k = Arc::new(AtomicBool::new(false));
         let stop_v = Arc::new(AtomicBool::new(false));
@@ -848,6 +978,13 @@ pub fn main(args: &[String]) -> i32 {
                 let evs = evlog::snapshot();
                 check_owner_log(&evs, &init_state, &mut c02);
             }
+        } else if shared_log {
+            if evlog::OVERFLOW.load(Ordering::SeqCst) {
+                rounds_overflow += 1;
+            } else {
+                let evs = evlog::snapshot();
+                check_shared_log(&evs, &mut c02);
+            }
         }
         if crate::VIOL_TOTAL.load(Ordering::SeqCst) > 0 || !c02.violations.is_empty() {
             break;
@@ -864,7 +1001,7 @@ pub fn main(args: &[String]) -> i32 {
         nviol += 1;
     }
     for v in c02.violations.iter().take(5) {
-        emit_violation("C02", "bracket-matches-no-candidate-state", v);
+        emit_violation("C02", if shared_log { "bracket-breaks-must-run-or-order-rule" } else { "bracket-matches-no-candidate-state" }, v);
         nviol += 1;
     }
     let ah = crate::ALLOC_IN_HANDLER.load(Ordering::SeqCst);
@@ -880,7 +1017,7 @@ pub fn main(args: &[String]) -> i32 {
         }
     }
     let pairs = director::overlap_pairs();
-    let (evaluations, distinct_keys, samples): (u64, Vec<J>, Vec<J>) = if owner_mode {
+    let (evaluations, distinct_keys, samples): (u64, Vec<J>, Vec<J>) = if owner_mode || shared_log {
         (
             c02.brackets,
             c02.distinct.iter().map(|k| J::s(&format!("{:x}", k))).collect(),
@@ -909,7 +1046,7 @@ pub fn main(args: &[String]) -> i32 {
         .set("evaluations", J::u(evaluations))
         .set("distinct_keys", J::Arr(distinct_keys))
         .set("samples", J::Arr(samples))
-        .set("mode", J::s(if owner_mode { "owner" } else { "stress" }))
+        .set("mode", J::s(if owner_mode { "owner" } else if shared_log { "sharedlog" } else { "stress" }))
         .set("phase", J::s(&phase))
         .set("seed", J::u(seed))
         .set("rounds", J::u(cfg.rounds))
